@@ -153,6 +153,20 @@ def discover(ctx, prover, rule):
                 r.acc_roots = evs[0]['roots']
                 r.bb = evs[0]['bb']
                 roles.append(r)
+            else:
+                # .. or computes `acc = acc + g * x` with acc carried around the loop (the accumulator of a fold)
+                for bb_, t_ in ctx.calls(prover, decl='std::ops::Add::add'):
+                    if bb_ not in lp.blocks:
+                        continue
+                    lvs = [strip(a_) for a_ in ctx.args(prover, bb_)]
+                    lvs = [a_ for a_ in lvs if a_.tag == 'lv' and a_[3] == h]
+                    if lvs:
+                        r = Role('ACC@%d' % h, s[2], ctx.where(prover, h), None)
+                        r.acc_roots = frozenset([('L', lvs[0][2])])
+                        r.acc_lv = (lvs[0][2], h)
+                        r.bb = bb_
+                        roles.append(r)
+                        break
     stop = set(nonce_fns(ctx)) | set(samplers)
     for r in roles:
         # a vector produced by a private helper is analysed as what the helper returns
